@@ -210,5 +210,13 @@ example : lowerHandle [1, 4, 6, 9, 12] 7 = some 3 := by decide
 example := size_eq_words_partial 2 [.C, .B, .U] [3, 3, 3] none sampleT (by decide) (by decide) (by decide)
   (((encode 2 [.C, .B, .U] [3, 3, 3] none sampleT).fibs.flatten).headD default) (by decide) (by decide)
 
+example := scan_C_over_U 1 [.C, .U] [2, 2] none witnessT (by decide) (by decide) (by decide)
+  (((encode 1 [.C, .U] [2, 2] none witnessT).fibs.flatten).headD default) (by decide) (by decide) (by decide)
+
+example := getSize_eq 2 [.C, .B, .U] [3, 3, 3] none sampleT (by decide) (by decide) (by decide)
+  (((encode 2 [.C, .B, .U] [3, 3, 3] none sampleT).fibs.flatten).headD default) (by decide)
+
+example : (((encode 2 [.C, .B, .U] [3, 3, 3] none sampleT).fibs.flatten).map (·.words)) = [6, 1, 1, 3, 3] := by decide
+
 end Codec
 end Ft
